@@ -60,6 +60,7 @@ func (f *Frame) builtin(b *ssa.Builtin, c *ssa.CallCommon, pos token.Pos) []Val 
 		return nil
 	case "close":
 		f.siteCall(c, pos)
+		f.neverClosedObl(c.Args[0], pos)
 		ch := f.val(c.Args[0])
 		vc.regComp("ChanClosed", "(Array Int Bool)")
 		cl := vc.get(f.cur, "ChanClosed")
